@@ -65,6 +65,16 @@ AnchoredOrder(d, dc, hid) ==
               \o NegSeq(At(d, dc, "bottom", 0))
   IN  SelectSeq(full, LAMBDA r : r < 0 \/ r \notin hid)
 
+\* subtotal indexes in payload display order: base elements in payload order, nothing
+\* hidden
+PayloadRank(d, dc) ==
+  LET full == NegSeq(At(d, dc, "top", 0)) \o WithAfter(d, dc, ValidSeq(d))
+              \o NegSeq(At(d, dc, "bottom", 0))
+      subs == SelectSeq(full, LAMBDA r : r < 0)
+  IN  [i \in 1..Len(subs) |-> -subs[i]]
+
+SubtotalId(d, dc, s) == InsIdOf(Subtotals(d, dc), FromView(dc), PayloadRank(d, dc), s)
+
 \* --- renderings -------------------------------------------------------------
 \* index of payload position p among the valid elements (0-based)
 ValidIndex(d, p) == Cardinality({q \in ValidPos(d) : q < p})
@@ -72,6 +82,11 @@ ValidIndex(d, p) == Cardinality({q \in ValidPos(d) : q < p})
 SignedIndexes(d, dc, ord) ==
   LET n == Len(Subtotals(d, dc)) IN
   [i \in 1..Len(ord) |-> IF ord[i] > 0 THEN ValidIndex(d, ord[i]) ELSE (-ord[i]) - 1 - n]
+
+\* the 'ins_N' rendering: base elements by index, subtotals by insertion id
+BogusIds(d, dc, ord) ==
+  [i \in 1..Len(ord) |-> IF ord[i] > 0 THEN [b |-> ValidIndex(d, ord[i]), s |-> 0]
+                          ELSE [b |-> -1, s |-> SubtotalId(d, dc, -ord[i])]]
 
 \* elements denoted by a display order
 ElsOf(d, dc, ord) ==
